@@ -274,6 +274,10 @@ parse_next_record_header:
         /* If there's handshake message waiting in outbuf then send it */
         if (ssl->outlen > 0)
         {
+            /* The caller (matrixSslReceivedData) closes the connection
+               after SSL_SEND_RESPONSE unless told that no alert is
+               being sent. */
+            *alertDescription = SSL_ALERT_NONE;
             return SSL_SEND_RESPONSE;
         }
         else
